@@ -109,6 +109,7 @@ template <class T> TVFn makeTV (void (*body) (Ctx<T>&))
         {
             auto in = TVGen<T>::values (g, nin, k, branching, nozero);
             ++st.evals;
+            for (size_t q = 1; q < in.size (); ++q) if (!sameBits (in[q], in[0])) { ++st.nontrivial; break; }
             std::string d;
             if (!tvOne<T> (f, body, in, d))
             {
@@ -340,7 +341,7 @@ inline int sym_main (int argc, char** argv)
                 perType[t.first] += st.evals - before;
             }
         }
-        printf ("TV functions=%ld evaluations=%ld failures=%ld", fns, st.evals, bad);
+        printf ("TV functions=%ld evaluations=%ld nontrivial=%ld failures=%ld", fns, st.evals, st.nontrivial, bad);
         for (auto& kv : perType) printf (" %s=%ld", kv.first.c_str (), kv.second);
         printf ("\n");
         return bad ? 1 : 0;
